@@ -1,6 +1,6 @@
 //! Method reply API.
 
-use serde::{Deserialize, Serialize};
+use serde::{Deserialize, Deserializer, Serialize};
 
 /// A successful method call reply.
 #[derive(Debug, Clone, Serialize, Deserialize)]
@@ -9,6 +9,25 @@ pub struct Reply<Params> {
     pub(super) parameters: Option<Params>,
     #[serde(skip_serializing_if = "Option::is_none")]
     pub(super) continues: Option<bool>,
+    // A message that has an `error` member is an error reply, whatever else it contains, so it
+    // must never deserialize as a successful one.
+    #[serde(default, skip_serializing, rename = "error")]
+    _no_error: NoError,
+}
+
+/// The `error` member that a successful reply does not have: no value deserializes into it.
+#[derive(Debug, Clone, Copy, Default)]
+struct NoError;
+
+impl<'de> Deserialize<'de> for NoError {
+    fn deserialize<D>(_deserializer: D) -> core::result::Result<Self, D::Error>
+    where
+        D: Deserializer<'de>,
+    {
+        Err(serde::de::Error::custom(
+            "a message with an `error` member is not a successful reply",
+        ))
+    }
 }
 
 impl<Params> Reply<Params> {
@@ -17,6 +36,7 @@ impl<Params> Reply<Params> {
         Self {
             parameters,
             continues: None,
+            _no_error: NoError,
         }
     }
 
